@@ -2,12 +2,8 @@
    for a well-formed name is read back by open_registry() as exactly (name, text). *)
 From Coq Require Import List NArith ZArith Bool Lia ZifyBool Arith.
 Import ListNotations.
-Require Import Base.Wire Base.PyStr C15.Model C15.Lemmas C15.Names C15.Codec.
+Require Import Base.Wire Base.PyStr C15.Model C15.Lemmas C15.Names C15.Codec C15.Split.
 Open Scope N_scope.
-
-(* an odd number of backslashes ends the scan of s started in state e (the reader's look-behind) *)
-Fixpoint escpar (e : bool) (s : str) : bool :=
-  match s with [] => e | c :: s' => escpar ((c =? BSL) && negb e) s' end.
 
 (* full (escaped, joined) variable names for which the value line can be read back:
    no blank, not a comment line, not ending with an odd number of backslashes.
@@ -68,84 +64,6 @@ Proof.
         apply N.eqb_eq in E2. subst x. rewrite isspace_SP in Hx. discriminate. }
     rewrite split_kv_step by (rewrite Hd, andb_false_r; reflexivity).
     rewrite (IH _ Hw He). reflexivity.
-Qed.
-
-(* ---- every joined name ends its scan in the even state *)
-Lemma escpar_app e a b : escpar e (a ++ b) = escpar (escpar e a) b.
-Proof. revert e. induction a as [|c a IH]; intro e; [reflexivity|]. cbn [app escpar]. apply IH. Qed.
-
-Lemma escpar_nobsl s : forallb (fun y => negb (y =? BSL)) s = true -> escpar false s = false.
-Proof.
-  induction s as [|c s IH]; intro H; [reflexivity|]. cbn [forallb] in H. apply andb_true_iff in H as [Hc Hs].
-  cbn [escpar]. destruct (c =? BSL); [discriminate|]. cbn [andb]. apply IH. exact Hs.
-Qed.
-
-Lemma replace_char_absent x img s : forallb (fun y => negb (y =? x)) s = true -> replace_char x img s = s.
-Proof.
-  induction s as [|c s IH]; intro H; [reflexivity|]. cbn [forallb] in H. apply andb_true_iff in H as [Hc Hs].
-  cbn [replace_char]. destruct (c =? x); [discriminate|]. rewrite (IH Hs). reflexivity.
-Qed.
-
-Definition R (s : str) : str := replace_char DOT [BSL; DOT] (replace_char COLON [BSL; COLON] s).
-
-Lemma R_app a b : R (a ++ b) = R a ++ R b.
-Proof. unfold R. rewrite !replace_char_app. reflexivity. Qed.
-
-Lemma hex_block k c l :
-  escpar false (R (BSL :: l :: hexdigits k c)) = false \/ l = COLON \/ l = DOT \/ l = BSL.
-Proof.
-  destruct (l =? COLON) eqn:E1; [apply N.eqb_eq in E1; auto|].
-  destruct (l =? DOT) eqn:E2; [apply N.eqb_eq in E2; auto|].
-  destruct (l =? BSL) eqn:E3; [apply N.eqb_eq in E3; auto|]. left.
-  assert (Hh : R (hexdigits k c) = hexdigits k c).
-  { unfold R. rewrite (replace_char_absent COLON).
-    - apply replace_char_absent. apply (forallb_impl hexrange); [|apply hexdigits_range].
-      intros x Hx. unfold hexrange in Hx. unfold DOT. lia.
-    - apply (forallb_impl hexrange); [|apply hexdigits_range].
-      intros x Hx. unfold hexrange in Hx. unfold COLON. lia. }
-  change (BSL :: l :: hexdigits k c) with ([BSL; l] ++ hexdigits k c). rewrite R_app, Hh.
-  assert (Hb : R [BSL; l] = [BSL; l]).
-  { unfold R. cbn [replace_char app]. replace (BSL =? COLON) with false by reflexivity.
-    rewrite E1. cbn [app replace_char]. replace (BSL =? DOT) with false by reflexivity. rewrite E2. reflexivity. }
-  rewrite Hb. cbn [app escpar]. rewrite N.eqb_refl. cbn [andb negb]. rewrite E3. cbn [andb].
-  apply escpar_nobsl. apply (forallb_impl hexrange); [|apply hexdigits_range].
-  intros x Hx. unfold hexrange in Hx. unfold BSL. lia.
-Qed.
-
-Lemma escpar_R_uesc_char c : escpar false (R (uesc_char c)) = false.
-Proof.
-  unfold uesc_char.
-  destruct (c =? BSL) eqn:E0; [vm_compute; reflexivity|].
-  destruct (c =? TAB); [vm_compute; reflexivity|].
-  destruct (c =? LF); [vm_compute; reflexivity|].
-  destruct (c =? CR); [vm_compute; reflexivity|].
-  assert (Hx : forall k l, l <> COLON -> l <> DOT -> l <> BSL -> escpar false (R (BSL :: l :: hexdigits k c)) = false).
-  { intros k l H1 H2 H3. destruct (hex_block k c l) as [H|[H|[H|H]]]; congruence. }
-  destruct (c <? 32); [apply Hx; discriminate|].
-  destruct (c <? 127) eqn:E5.
-  - unfold R. cbn [replace_char app]. destruct (c =? COLON) eqn:E6.
-    + cbn [app replace_char]. vm_compute. reflexivity.
-    + cbn [app replace_char]. destruct (c =? DOT) eqn:E7.
-      * vm_compute. reflexivity.
-      * cbn [app escpar]. rewrite E0. reflexivity.
-  - destruct (c <? 256); [apply Hx; discriminate|].
-    destruct (c <? 65536); apply Hx; discriminate.
-Qed.
-
-Lemma escpar_escape n rest : escpar false (escape n ++ rest) = escpar false rest.
-Proof.
-  rewrite escpar_app. f_equal. unfold escape. fold (R (uesc n)).
-  induction n as [|c n IH]; [reflexivity|].
-  change (uesc (c :: n)) with (uesc_char c ++ uesc n). rewrite R_app, escpar_app, escpar_R_uesc_char. exact IH.
-Qed.
-
-Lemma join_names_escpar ns : escpar false (join_names ns) = false.
-Proof.
-  unfold join_names. induction ns as [|n ns IH]; [reflexivity|].
-  destruct ns as [|m ns'].
-  - cbn [map join]. rewrite <- (app_nil_r (escape n)). apply escpar_escape.
-  - change (join [DOT] (map escape (n :: m :: ns'))) with (escape n ++ DOT :: join [DOT] (map escape (m :: ns'))).
-    rewrite escpar_escape. cbn [escpar]. replace (DOT =? BSL) with false by reflexivity. exact IH.
 Qed.
 
 (* rstrip's inner loop is lstrip *)
